@@ -1,6 +1,6 @@
 """Configuration of ./check C02 (see cfg/README)."""
 
-_GROUPS = ['GlyfDec', 'GlyfLazy']   # further checked-index model groups: Drive/Total<G>.lean + harness/area_total_<g>.go
+_GROUPS = ['GlyfDec', 'GlyfLazy', 'Cmap4', 'Cmap12', 'CmapDir', 'Metrics', 'NameCff', 'Otl']   # further checked-index model groups: Drive/Total<G>.lean + harness/area_total_<g>.go
 
 PROP = {'drive': ['Total'] + ['Total' + g for g in _GROUPS],
  'harness_files': ['area_total.go'] + ['area_total_' + g.lower() + '.go' for g in _GROUPS],
@@ -9,43 +9,71 @@ PROP = {'drive': ['Total'] + ['Total' + g for g in _GROUPS],
                        'C02_maxp_no_panic', 'C02_maxp_cost', 'C02_maxp',
                        'C02_header_no_panic', 'C02_header_cost', 'C02_header',
                        'C02_gdef_no_panic', 'C02_gdef_cost_partial', 'C02_gdef_alloc_fails',
-                       'C02_kern_unrepaired_cost_fails', 'C02_facts'],
+                       'C02_kern_unrepaired_cost_fails', 'C02_facts',
+                       'C02_loca_no_panic', 'C02_loca_cost', 'C02_removePadding_no_panic', 'C02_composite_no_panic',
+                       'C02_glyf_no_panic', 'C02_glyf_cost', 'C02_glyf_agrees',
+                       'C02_lazy_safe_simple', 'C02_lazy_simple_cost', 'C02_lazy_safe_components',
+                       'C02_cmap4_no_panic', 'C02_cmap4_cost', 'C02_cmap4_agrees', 'C02_lazy_safe_cmap4',
+                       'C02_cmap12_no_panic', 'C02_cmap12_cost', 'C02_cmap12_per_group_cap_fails', 'C02_cmap12_agrees',
+                       'C02_lazy_safe_cmap12',
+                       'C02_hmtx_no_panic', 'C02_hmtx_cost', 'C02_head_no_panic', 'C02_head_cost',
+                       'C02_os2_no_panic', 'C02_os2_cost', 'C02_post_no_panic', 'C02_post_cost', 'C02_metrics_agree',
+                       'C02_name_no_panic', 'C02_name_cost_partial', 'C02_name_cost_fails', 'C02_name_agrees',
+                       'C02_cffindex_no_panic', 'C02_cffindex_cost', 'C02_cffindex_agrees',
+                       'C02_cmap_no_panic', 'C02_cmap_cost_partial', 'C02_cmap_agrees', 'C02_lazy_safe_cmap_get',
+                       'C02_cmap0_no_panic', 'C02_lazy_safe_cmap0', 'C02_cmap6_no_panic', 'C02_cmap6_cost', 'C02_cmap06_agree',
+                       'C02_coverage_no_panic', 'C02_coverage_cost', 'C02_classdef_no_panic', 'C02_classdef_cost_partial',
+                       'C02_classdef_cost_fails', 'C02_classdef_repaired_cost', 'C02_otl_agree', 'C02_gdef_concrete_no_panic'],
  'areas': [('total', 3000, 40000)],
  'rule': 'distinct case lines (decoder, bytes); non-trivial = input of at least 4 bytes',
  'partial': [
-     'modelled: yes / proved: yes (no panic + explicit linear cost): kern.Read (as repaired), maxp.Read, '
-     'header.Read; gdef.Read proved panic-free relative to its sub-readers, cost proved only in the true form '
-     '(|b|/4+3)*(C+2) and the proportional-allocation clause DISPROVED (C02_gdef_alloc_fails, known finding C02-gdef-alias)',
-     'modelled: no / proved: no in this area (fuzz-tied only, stream D:total.<decoder>; reported as search, not proof): '
-     'sfnt.Read, cff.Read (incl. DICT, charset, encoding, FDSelect, charstring interpreter), cmap.Decode + Get/GetBest/Lookup, '
-     'glyf.Decode + SimpleGlyph.Decode + Components, gtab.Read (GSUB and GPOS), coverage.Read/ReadSet, classdef.Read, '
-     'name.Decode, head.Read, hmtx.Decode, os2.Read, post.Read (several of these have value-level models under other '
-     'properties: C09 cmap, C11 glyf, C12 metrics, C08 coverage/classdef/gtab, C13 CFF, C14 name/post; none is in checked-index style)',
-     'C02_lazy_safe (whatever Decode returns, the lazy accessors do not panic) is only searched by the fuzz stream '
-     '(accessors run after every successful decode), not proved',
+     'modelled: yes / proved: yes (checked-index model, no panic on every input, explicit cost, V stream + site inventory): '
+     'kern.Read (repaired), maxp.Read, header.Read, gdef.Read (relative to its sub-readers), cmap.Decode + Table.Get + '
+     'decodeFormat0/4/6/12 + their Lookup/CodeRange, decodeLoca + glyf.Decode + decodeGlyph + removePadding + '
+     'decodeGlyphComposite + SimpleGlyph.Decode + Components, hmtx.Decode, head.Read, os2.Read, post.Read, name.Decode + '
+     'utf16Decode, CFF readIndex, coverage.Read/ReadSet, classdef.Read',
+     'cost clause TRUE ONLY IN A WEAKER FORM (proved as *_cost_partial, negation of the linear clause proved where stated): '
+     'gdef.Read ((|b|/4+3)(C+2), C02_gdef_alloc_fails), name.Decode (records x length up to a cap, C02_name_cost_fails), '
+     'cmap.Decode (steps quadratic in the number of records: 64*steps <= 64+|b|^2; allocation linear), classdef.Read format 2 '
+     '(ranges x 65536, zigzag witness), decodeFormat4/12, coverage format 2 and SimpleGlyph.Decode (linear plus the constant 65536)',
+     'modelled: no / proved: no (fuzz-tied only, stream D:total.<decoder> and total.adv families; search, not proof): sfnt.Read '
+     '(table merge), cff.Read above INDEX level (DICT, charset, encoding, FDSelect, charstring interpreter), gtab.Read (script/'
+     'feature/lookup lists and all subtable readers), post.Read bridge to the C14 names model, readIndexAt',
+     'C02_lazy_safe is proved for SimpleGlyph.Decode (every value), Components, Table.Get and the format 0/4/6/12 Lookup/CodeRange; '
+     'the remaining accessors (Font.Widths/GlyphBBoxes/GlyphName/..., re-encoding, GetBest) are only searched by the fuzz stream',
      'wall-time and runtime.MemStats bounds are checked per case against generous constants '
      '(alloc <= 4096*len + 16 MiB, time <= 50 us*len + 3 s, 10 s time-out); they calibrate, they do not prove',
-     'known open cost findings (each replayed on every run from known_findings.jsonl): gdef.Read mark-glyph-set aliasing (#37, also '
-     'a theorem), classdef.Read format 2 backward ranges (#36), GSUB/GPOS context-rule aliasing (#27), CFF Private DICT size (#40), '
-     'Type 2 subroutine call blow-up (#26); repaired under this property: kern.Read pair count (#35), sfnt.Read glyph-name count '
-     '(Font.GlyphName panic); #6 SimpleGlyph.Decode panics are no longer seen since d60b209 (regression inputs in corpus/C02)'],
+     'open cost findings (replayed on every run from known_findings.jsonl): gdef mark-glyph-set aliasing (#37; patch 04 offered), '
+     'classdef format 2 backward ranges (#36; patch 03 offered), context-rule aliasing (#27), name record aliasing (new), '
+     'lookup-list aliasing (new); repaired under this property: kern pair count (#35), glyph-name count (Font.GlyphName panic), '
+     'CFF Private DICT size (#40, patch 01), Type 2 operation budget (#26, patch 02), Format0.Lookup negative rune (new, patch 05)'],
  'modelled_not_verified': [
      'parser.Parser is taken as a plain byte view of an in-memory reader (theorem C17); ReadBytes(n>1024) is the only panic site and every modelled call has a constant argument',
      'sort.Slice in header.Read is re-implemented as List.mergeSort and charged n*(log2 n+1) steps',
      'classdef.Read and coverage.ReadSet are abstract parameters of the gdef model; on the V stream their outcomes are tabulated by running the real sub-readers',
-     'allocation is counted in elements (map entries, slice elements, objects), not bytes'],
+     'allocation is counted in elements (map entries, slice elements, objects), not bytes',
+     'encoding/binary.Read of fixed structs (head, hhea, OS/2, post header) is a read of the struct size followed by total field '
+     'readers; sort.Search/slices.Insert in cmap.Decode are re-implemented (linear search proved equal under sortedness)',
+     'Go map reads of the language tables (name), the Mac Roman table and code2rune are function parameters of the models; the driver '
+     'instantiates them with the regenerated tables',
+     'make sizes: glyf/loca models require n <= available input (proved), the others n < 2^47 (counts are 16/32-bit fields)'],
  'assumptions': ['in-memory readers (bytes.Reader): Seek/ReadAt fail only at the end of the input',
                  'sizes below 2^47 elements for make (inputs up to several MB give counts below 2^32)']}
 
-LEVEL = {'text': 'Proof for four decoders, search for the rest: checked-index Lean models of kern.Read (repaired), maxp.Read, '
-         'header.Read and gdef.Read (every Go index/slice/make/parser read is an operation that can yield a panic) are proved '
-         'never to panic on any byte string, with explicit step and allocation bounds (kern: |b|+3 steps, |b|+1 entries; maxp: 2/2; '
-         'header: 3100/840); for gdef the proportional-allocation clause is disproved by a witness family and the true bound is '
-         'proved. The models are tied to the code by outcome-and-value correspondence on malformed inputs and by a regenerated '
-         'inventory of all index/slice/make/assertion/panic sites with their guards, compared with committed expectations. Every '
-         'decoder named by the property (and the lazy accessors on its result) is additionally run on valid tables from the '
-         "repository's encoders, its fuzz corpora, truncations at every offset, bit/byte/count/offset mutations and constructed "
-         'adversaries, with panics, time-outs and allocation out of proportion reported as violations.',
+LEVEL = {'text': 'Proof for the tier-A decoders, search for the rest: checked-index Lean models (every Go index, slice, make, '
+         'parser read, nil-func call and explicit panic is an operation that can yield a panic) of kern, maxp, header, gdef, the cmap '
+         'directory and formats 0/4/6/12, loca/glyf/simple and composite glyphs, hmtx, head, OS/2, post, name, coverage, classdef and '
+         'the CFF INDEX reader are proved never to panic on any byte string, with explicit step and allocation bounds; where the '
+         'linear clause is false (gdef, name, classdef format 2, cmap directory) the true bound is proved together with a witness '
+         'family. Lazy decoders and accessors (SimpleGlyph.Decode on every value, Components, Table.Get, Lookup, CodeRange) are '
+         'proved panic-free on whatever the decoders return. Each checked model is proved equal, after erasing sites and costs, to '
+         'the value-level model of the property that owns the format (C03, C09, C11, C12, C13, C14, C08). The models are tied to the '
+         'code by outcome-and-value correspondence on malformed inputs and by a regenerated inventory of all index/slice/make/'
+         'assertion/panic sites with their guards (a V line per function). Every decoder named by the property, with the accessors on '
+         "its result, is additionally run on valid tables from the repository's encoders, its fuzz corpora, truncations, mutations "
+         'and constructed families of many individually legal maximal records, with panics, time-outs and allocation out of '
+         'proportion reported as violations.',
  'note': 'Trusted: Lean kernel + 3 standard axioms; hand-written models mirror the code as checked by sampled correspondence and the '
-         'site inventory; decoders other than the four modelled ones are covered by differential fuzzing only.',
- 'technique': 'Lean 4 proofs about checked-index decoder models + AST site/guard inventory + differential fuzzing with allocation/time budgets'}
+         'site inventory; sfnt.Read, the CFF DICT/charstring layer and the GSUB/GPOS readers are covered by differential fuzzing only.',
+ 'technique': 'Lean 4 proofs about checked-index decoder models + bridging lemmas to value-level models + AST site/guard inventory + '
+              'differential fuzzing with allocation/time budgets'}
